@@ -1,13 +1,14 @@
 /-
 Props/C01.lean — fields equal the magnetostatic integrals they claim to solve.
-Proved: Dipole kernel = point-dipole formula; the one-variable Biot–Savart integral of a
-straight filament that `current_polyline_Hfield` evaluates in closed form (antiderivative and
-definite integral, by the fundamental theorem of calculus); Sphere = ⅔J inside / dipole outside
+Proved: Dipole kernel = point-dipole formula; the straight current segment: the port of
+`current_polyline_Hfield` (normalisation, foot point, all three branches of the sinθ case split,
+direction) equals the Biot–Savart line integral over the segment for every observer off the
+carrier line (`segment_is_biot_savart`, via the antiderivative, the fundamental theorem of
+calculus and an affine substitution — Lemmas/SegmentBS.lean); Sphere = ⅔J inside / dipole outside
 with the textbook interface conditions (C13, C14); the wrappers add exactly the interior
 polarization term (C02); the frame change global↔local is a rigid motion (C03).
 /- FULL: for every class the closed form equals its defining surface / line integral.  Not shown:
-   (a) that `segmentH`'s |sinθ₁ ∓ sinθ₂| case split equals the definite integral below for every
-   position of the foot point (the integral itself is proved); (b) Cuboid, Triangle (hence
+   (b) Cuboid, Triangle (hence
    Tetrahedron, TriangularMesh): iterated one-variable integrals of the same kind; (c) Circle,
    Cylinder, CylinderSegment: need Bulirsch cel/el3 theory absent from Mathlib.  For all classes
    the quadrature oracle integrates the defining integral numerically against the real code. -/
@@ -15,8 +16,9 @@ polarization term (C02); the frame change global↔local is a rigid motion (C03)
 import Mathlib.Analysis.SpecialFunctions.Integrals.Basic
 import Mathlib.Analysis.SpecialFunctions.Sqrt
 import MagpyVerif.Lemmas.KernReal
+import MagpyVerif.Lemmas.SegmentBS
 namespace MagpyVerif.C01
-open MagpyVerif MagpyVerif.Kern Real intervalIntegral
+open MagpyVerif MagpyVerif.Kern Real intervalIntegral MagpyVerif.SegBS
 
 /-- antiderivative used by the straight-segment Biot–Savart integral -/
 theorem hasDerivAt_seg (d : ℝ) (hd : 0 < d) (t : ℝ) :
@@ -62,4 +64,45 @@ theorem dipole_is_point_dipole (m x : V3 ℝ) (hx : Kern.norm x ≠ 0) :
   simp only [dipoleH, n, ofNat_real, Nat.cast_ofNat, pi_real]
   generalize Kern.norm x = r at *
   apply V3.ext' <;> simp [vs, vd] <;> field_simp
+/-- the Biot–Savart integrand `dl × r / |r|³` at parameter `s ∈ [0,1]` along the segment p1 → p2:
+`dl = (p2 − p1) ds`, `r = po − (p1 + s (p2 − p1))` -/
+noncomputable def bsIntegrand (p1 p2 po : V3 ℝ) (s : ℝ) : V3 ℝ :=
+  vd (V3.cross (p2 - p1) (po - (p1 + vs s (p2 - p1)))) (Kern.norm (po - (p1 + vs s (p2 - p1))) ^ 3)
+
+theorem bsIntegrand_eq (p1 p2 po : V3 ℝ) (s : ℝ) :
+    bsIntegrand p1 p2 po s =
+      vs (1 / (nsq (po - (p1 + vs s (p2 - p1))) * Real.sqrt (nsq (po - (p1 + vs s (p2 - p1))))))
+        (V3.cross (p2 - p1) (po - p1)) := by
+  have hc : V3.cross (p2 - p1) (po - (p1 + vs s (p2 - p1))) = V3.cross (p2 - p1) (po - p1) := by
+    apply V3.ext' <;> simp only [V3.cross, vs, V3.add_x, V3.add_y, V3.add_z, V3.sub_x, V3.sub_y, V3.sub_z] <;> ring
+  have hn : Kern.norm (po - (p1 + vs s (p2 - p1))) ^ 3 =
+      nsq (po - (p1 + vs s (p2 - p1))) * Real.sqrt (nsq (po - (p1 + vs s (p2 - p1)))) := by
+    rw [norm_eq]
+    have h2 := Real.mul_self_sqrt (nsq_nonneg (po - (p1 + vs s (p2 - p1))))
+    calc Real.sqrt (nsq (po - (p1 + vs s (p2 - p1)))) ^ 3
+        = (Real.sqrt (nsq (po - (p1 + vs s (p2 - p1)))) * Real.sqrt (nsq (po - (p1 + vs s (p2 - p1))))) *
+            Real.sqrt (nsq (po - (p1 + vs s (p2 - p1)))) := by ring
+      _ = _ := by rw [h2]
+  unfold bsIntegrand
+  rw [hc, hn]
+  apply V3.ext' <;> simp only [vs, vd] <;> ring
+
+/-- **C01 (Polyline segment)**: for every current, every segment and every observer off the carrier
+line, the value computed by the port of `current_polyline_Hfield` — normalisation by the segment
+length, foot point, the `mask2/mask3/mask4` choice between |sinθ₁ − sinθ₂| and |sinθ₁ + sinθ₂|,
+direction vector — is the Biot–Savart line integral `I/(4π) ∫₀¹ dl × r / |r|³` over the segment,
+component by component. -/
+theorem segment_is_biot_savart (cur : ℝ) (p1 p2 po : V3 ℝ)
+    (hoff : 0 < nsq (V3.cross (p2 - p1) (po - p1))) :
+    segmentH cur p1 p2 po = vs (cur / (4 * Real.pi))
+      ⟨∫ s in (0:ℝ)..1, (bsIntegrand p1 p2 po s).x, ∫ s in (0:ℝ)..1, (bsIntegrand p1 p2 po s).y,
+       ∫ s in (0:ℝ)..1, (bsIntegrand p1 p2 po s).z⟩ := by
+  rw [segmentH_eq p1 p2 po cur hoff]
+  simp only [bsIntegrand_eq, vs, K]
+  rw [intervalIntegral.integral_mul_const, intervalIntegral.integral_mul_const, intervalIntegral.integral_mul_const]
+  apply V3.ext' <;> simp only <;> ring
+
+-- non-vacuity: segment along x, observer above its middle
+example : 0 < nsq (V3.cross ((⟨1, 0, 0⟩ : V3 ℝ) - ⟨0, 0, 0⟩) (⟨1/2, 1, 0⟩ - ⟨0, 0, 0⟩)) := by
+  simp [nsq, V3.cross]
 end MagpyVerif.C01
